@@ -84,11 +84,12 @@ class Obj:
 
 class Unk:
     """Unknown value; `tag` is the access path / source text it came from, `typ` its static type."""
-    __slots__ = ("tag", "typ")
+    __slots__ = ("tag", "typ", "pred")
 
     def __init__(self, tag="?", typ=None):
         self.tag = tag
         self.typ = typ
+        self.pred = None   # (test node, env it was evaluated in, frame): an undecided boolean remembers what it is the truth of
 
     def __eq__(self, o):
         return isinstance(o, Unk) and self.tag == o.tag
@@ -169,10 +170,10 @@ class RefV:
         return isinstance(o, RefV) and o.obj == self.obj and o.attr == self.attr
 
     def __hash__(self):
-        return hash(("R", self.obj.name, self.attr))
+        return hash(("R", self.obj.name if self.obj is not None else None, self.attr))
 
     def __repr__(self):
-        return f"&{self.obj.name}.{self.attr}"
+        return f"&{self.obj.name}.{self.attr}" if self.obj is not None else f"&{self.attr}"
 
 
 class DictV:
@@ -755,6 +756,27 @@ class Interp:
             self.eval(s.value, st, fr, effects=True)
             return [(st, None)]
         if isinstance(s, ast.Assign):
+            # table lookup with an enum-valued key that is not decided yet: one path per member (the table is a case split)
+            look = s.value
+            keyn = dn = None
+            if isinstance(look, ast.Call) and isinstance(look.func, ast.Attribute) and look.func.attr == "get" and look.args and not look.keywords:
+                dn, keyn = look.func.value, look.args[0]
+            elif isinstance(look, ast.Subscript) and not isinstance(look.slice, ast.Slice):
+                dn, keyn = look.value, look.slice
+            if keyn is not None and isinstance(keyn, (ast.Name, ast.Attribute)):
+                self._quiet += 1
+                try:
+                    dv, kv = self.eval(dn, st, fr), self.eval(keyn, st, fr)
+                finally:
+                    self._quiet -= 1
+                if isinstance(dv, DictV) and isinstance(kv, EnumSet) and kv.single() is None and 1 < len(kv.members) <= 8:
+                    outs = []
+                    for m in sorted(kv.members):
+                        s2 = st.copy()
+                        if self.refine(keyn, EnumSet(kv.cls, [m]), s2, fr):
+                            outs.extend(self._exec_stmt(s, s2, fr))
+                    if outs:
+                        return outs
             v = self.eval(s.value, st, fr, effects=True)
             ref = self._ref_of(s.value, v, st, fr)
             for t in s.targets:
@@ -795,6 +817,7 @@ class Interp:
                         outs.append((st1, ("return", v1)))
                     return outs
             v = self.eval(s.value, st, fr, effects=True) if s.value is not None else NONE
+            v = self._deref_locals(v, st)
             if not fr.stack:
                 st.trace.append(Ret(v, s, fr.func, fr.stack))
             return [(st, ("return", v))]
@@ -1011,9 +1034,36 @@ class Interp:
             return [x.value for x in it.elts]
         return None
 
+    def _generator_parts(self, it, st, fr):
+        """`for x in obj.gen():` where gen's body is only `yield from <expr>` statements -> the <expr>s with `self` replaced
+        by the receiver expression (the loop over the generator is the loops over those, in order)."""
+        if not (isinstance(it, ast.Call) and not it.args and not it.keywords and isinstance(it.func, ast.Attribute)):
+            return None
+        callees, resolved = self._resolve(it, st, fr)
+        if len(callees) != 1 or not resolved:
+            return None
+        g = callees[0]
+        body = [b for b in g.body() if not (isinstance(b, ast.Expr) and isinstance(b.value, ast.Constant))]
+        if not body or not all(isinstance(b, ast.Expr) and isinstance(b.value, ast.YieldFrom) for b in body) or g.params != ["self"]:
+            return None
+        import copy
+        recv = it.func.value
+
+        class S(ast.NodeTransformer):
+            def visit_Name(self, n):
+                return copy.deepcopy(recv) if n.id == "self" else n
+        parts = []
+        for b in body:
+            e = S().visit(copy.deepcopy(b.value.value))
+            ast.copy_location(e, it)
+            for x in ast.walk(e):
+                ast.copy_location(x, it)
+            parts.append(e)
+        return parts
+
     def exec_for(self, s, st, fr):
-        parts = self._chain_args(s.iter)
-        if parts is not None and len(parts) > 1 and not any(isinstance(n, ast.Break) for b in s.body for n in ast.walk(b)):
+        parts = self._chain_args(s.iter) or self._generator_parts(s.iter, st, fr)
+        if parts is not None and len(parts) >= 1 and (len(parts) > 1 or parts[0] is not s.iter) and not any(isinstance(n, ast.Break) for b in s.body for n in ast.walk(b)):
             # one loop over the concatenation == the loops over the parts, one after the other (no `break` in the body)
             outs = [(st, None)]
             for i, part in enumerate(parts):
@@ -1038,6 +1088,14 @@ class Interp:
             if isinstance(t, ast.Name):
                 names.add(t.id)
         attrs |= self._callee_write_attrs(s.body, fr)
+        # a local that aliases a model object's container and is only *mutated* in the body stays that alias: what changes is
+        # the attribute it denotes
+        rebound = {x.id for b in s.body + s.orelse for n in ast.walk(b) if isinstance(n, (ast.Assign, ast.AugAssign, ast.AnnAssign, ast.For))
+                   for t in (n.targets if isinstance(n, ast.Assign) else [n.target]) for x in ast.walk(t) if isinstance(x, ast.Name) and isinstance(x.ctx, ast.Store)}
+        for nm in list(names):
+            if isinstance(st.env.get(nm), RefV) and nm not in rebound:
+                names.discard(nm)
+                attrs.add(st.env[nm].attr)
         keep = self._self_refining(st, names, attrs, s.body + s.orelse, fr)
         self.havoc(st, names, attrs, fr)
         st.env.update(keep)
@@ -1045,6 +1103,10 @@ class Interp:
         ct = fr.ft.type_of(s.iter)
         if ct and ct[0] in ("list", "set"):
             et = ct[1]
+        if et is None and isinstance(coll, (Unk, CollV)) and coll.typ and coll.typ[0] in ("list", "set"):
+            et = coll.typ[1]   # the static type of the expression is unknown (a table entry, a parameter) but the value knows what it holds
+        if et is not None and et[0] == "union":
+            et = None
         var = self._fresh_elem(key, et)
         # Element facts of a filtered collection were established when the collection was built.  A fact that reads
         # something the loop body itself changes is guaranteed only for the first iteration; it is assumed for the
@@ -1358,7 +1420,18 @@ class Interp:
                     return RefV(base, node.attr)
         return None
 
+    def _deref_locals(self, v, st, depth=0):
+        """A value that leaves its frame must not refer to the frame's locals by name."""
+        if isinstance(v, RefV) and v.obj is None:
+            return self._deref_locals(self.deref(v, st), st, depth + 1) if depth < 4 else Unk(v.attr)
+        if isinstance(v, ListV) and any(isinstance(x, (RefV, ListV)) for x in v.items) and depth < 4:
+            return ListV([self._deref_locals(x, st, depth + 1) for x in v.items], v.fresh, v.kind)
+        return v
+
     def deref(self, r, st):
+        if r.obj is None:          # reference to a local container (an element of a literal table)
+            v = st.env.get(r.attr)
+            return self.deref(v, st) if isinstance(v, RefV) else (v if v is not None else Unk(r.attr))
         k = (r.obj.name, r.attr)
         if k in st.heap:
             return st.heap[k]
@@ -1391,6 +1464,43 @@ class Interp:
                 val = v
         Interp._MODCONST[key] = val
         return val
+
+    def _call_simple_def(self, fn, call, st, fr, effects):
+        """A nested def made of plain local assignments and one final `return <expr>`, called where statements cannot be
+        hoisted (a comprehension condition, a key function): evaluated in place like a lambda.  -> value or None."""
+        body = [b for b in fn.body if not (isinstance(b, ast.Expr) and isinstance(b.value, ast.Constant))]
+        if not body or not isinstance(body[-1], ast.Return) or body[-1].value is None:
+            return None
+        if not all(isinstance(b, ast.Assign) and all(isinstance(t, ast.Name) for t in b.targets) for b in body[:-1]):
+            return None
+        params = [a.arg for a in fn.args.args]
+        vals = {}
+        for i, a in enumerate(call.args):
+            if i < len(params):
+                vals[params[i]] = self.eval(a, st, fr, effects)
+        for kw in call.keywords:
+            if kw.arg in params:
+                vals[kw.arg] = self.eval(kw.value, st, fr, effects)
+        dflt = fn.args.defaults
+        for p, d in zip(params[len(params) - len(dflt):], dflt):
+            if p not in vals:
+                vals[p] = self.eval(d, st, fr)
+        if set(params) - set(vals):
+            return None
+        saved = st.env
+        st.env = dict(saved)
+        st.env.update(vals)
+        self._quiet += 1
+        try:
+            for b in body[:-1]:
+                v = self.eval(b.value, st, fr)
+                ref = self._ref_of(b.value, v, st, fr)
+                for t in b.targets:
+                    st.env[t.id] = ref or v
+            return self.eval(body[-1].value, st, fr)
+        finally:
+            self._quiet -= 1
+            st.env = saved
 
     def _call_lambda(self, fv, call, st, fr, effects):
         lam = fv.node
@@ -1466,6 +1576,8 @@ class Interp:
                 del st.memo[k]
             self._drop_facts(st, {recv_expr.attr}, fr)
             return True
+        if isinstance(recv_expr, ast.Name) and isinstance(st.env.get(recv_expr.id), RefV) and st.env[recv_expr.id].obj is None:
+            return self._mut_event(ast.copy_location(ast.Name(id=st.env[recv_expr.id].attr, ctx=ast.Load()), recv_expr), op, args, node, st, fr, argnodes)
         if isinstance(recv_expr, ast.Name) and isinstance(st.env.get(recv_expr.id), RefV):
             r = st.env[recv_expr.id]
             st.env["__refobj"] = r.obj
@@ -1511,6 +1623,8 @@ class Interp:
             mv = self._module_const(e.id, fr)
             if mv is not None:
                 return mv
+            if e.id in self.repo.functions and isinstance(e.ctx, ast.Load):
+                return FuncV(self.repo.functions[e.id].node)   # a module-level function used as a value (a sort key, a table entry)
             return Unk(e.id, fr.ft.lookup(e.id, e))
         if isinstance(e, ast.Attribute):
             en = r.enum_of_member_expr(e)
@@ -1579,7 +1693,9 @@ class Interp:
             t = self.truth(e, st, fr)
             if t is not None:
                 return Const(t)
-            return Unk(ast.unparse(e), ("prim", "bool"))
+            u = Unk(ast.unparse(e), ("prim", "bool"))
+            u.pred = (e, dict(st.env), fr)
+            return u
         if isinstance(e, ast.IfExp):
             t = self.truth(e.test, st, fr)
             if t is True:
@@ -1596,7 +1712,14 @@ class Interp:
                 return Obj(a.name, a.cls, True)
             return Unk(ast.unparse(e), fr.ft.type_of(e))
         if isinstance(e, (ast.Tuple, ast.List)):
-            items = [self.eval(x, st, fr, effects) for x in e.elts]
+            items = []
+            for x in e.elts:
+                v = self.eval(x, st, fr, effects)
+                # an element written as `obj.some_list` is that list itself, not a copy (tables of records to be edited alike)
+                r = self._ref_of(x, v, st, fr) if isinstance(x, (ast.Attribute, ast.Name)) else None
+                if r is None and isinstance(x, ast.Name) and isinstance(v, ListV) and v.fresh and v.kind in ("list", "set") and x.id in st.env:
+                    r = RefV(None, x.id)   # a local list placed in a table: the table entry *is* that list
+                items.append(r or v)
             return ListV(items, True, "tuple" if isinstance(e, ast.Tuple) else "list")
         if isinstance(e, ast.Set):
             return ListV([self.eval(x, st, fr, effects) for x in e.elts], True, "set")
@@ -1773,6 +1896,10 @@ class Interp:
                 self._quiet -= 1
             if isinstance(fv, FuncV) and isinstance(fv.node, ast.Lambda):
                 return self._call_lambda(fv, e, st, fr, effects)
+            if isinstance(fv, FuncV) and isinstance(fv.node, ast.FunctionDef) and ("__call_%d" % id(e)) not in st.env:
+                r = self._call_simple_def(fv.node, e, st, fr, effects)
+                if r is not None:
+                    return r
             if isinstance(fv, BoundV) and fv.op is not None:
                 args = [self.eval(a, st, fr, effects) for a in e.args]
                 if effects:
@@ -1874,6 +2001,15 @@ class Interp:
                 rng = range(*ints)
                 if len(rng) <= 16:
                     return ListV([Poly.const(i) for i in rng], True, "list")
+        if fname == "enumerate" and len(e.args) >= 1:
+            col = self._eval_iterable(e.args[0], st, fr)
+            start = 0
+            sn = e.args[1] if len(e.args) > 1 else next((kw.value for kw in e.keywords if kw.arg == "start"), None)
+            if sn is not None:
+                sv = self.eval(sn, st, fr)
+                start = int(sv.const_value()) if isinstance(sv, Poly) and sv.is_const() else None
+            if isinstance(col, ListV) and start is not None:
+                return ListV([ListV([Poly.const(start + i), x], True, "tuple") for i, x in enumerate(col.items)], col.fresh, "list")
         if fname == "zip" and len(e.args) >= 2 and not e.keywords:
             cols = [self._eval_iterable(a, st, fr) for a in e.args]
             if all(isinstance(c, ListV) for c in cols):
@@ -2226,6 +2362,30 @@ class Interp:
     def _cmp_sides(self, op, le, re_, st, fr):
         if self.log_reads and isinstance(op, (ast.Eq, ast.NotEq, ast.Is, ast.IsNot, ast.In, ast.NotIn)):
             cl, cr = self._const_members(le), self._const_members(re_)
+
+            def by_value(node):
+                # not written as constants, but a name / table entry whose *value* is a constant or a collection of constants
+                if isinstance(node, ast.Attribute) or not isinstance(node, (ast.Name, ast.Subscript, ast.Call)):
+                    return None
+                self._quiet += 1
+                try:
+                    v = self.eval(node, st, fr)
+                finally:
+                    self._quiet -= 1
+                vals = v.items if isinstance(v, ListV) else [v]
+                out = set()
+                for x in vals:
+                    if isinstance(x, EnumSet) and x.single() is not None:
+                        out.add(x.single())
+                    elif isinstance(x, Const):
+                        out.add(repr(x.v))
+                    else:
+                        return None
+                return out or None
+            if cr is None and isinstance(le, ast.Attribute):
+                cr = by_value(re_)
+            if cl is None and isinstance(re_, ast.Attribute):
+                cl = by_value(le)
             saved = self._cmp_consts
             if cr is not None and isinstance(le, ast.Attribute):
                 self._cmp_consts = cr
@@ -2504,6 +2664,18 @@ class Interp:
             return True
         # bare name / attribute / call used as a condition
         v = self.eval(test, st, fr)
+        if isinstance(v, Unk) and v.pred is not None:
+            # the boolean was computed elsewhere (another statement, a helper): assuming it means assuming that comparison,
+            # in the environment where it was written -- the objects it speaks about are shared through the heap
+            pnode, penv, pfr = v.pred
+            saved = st.env
+            st.env = dict(penv)
+            try:
+                ok = self.assume(pnode, truth, st, pfr)
+            finally:
+                st.env = saved
+            if ok is False:
+                return False
         if isinstance(v, Unk) and (v.typ is None or v.typ == ("prim", "bool")):
             self.refine(test, Const(truth), st, fr)
         elif isinstance(v, Obj) and v.maybe_none:
